@@ -268,3 +268,38 @@ def getAfterRemoval (remaining : List (Nat × Nat)) (pos : RPos) (openHandle clo
     | none => .eof
 
 end Logrange.Truncate
+
+/-! ## the chunk's time hull (`pkg/tmindex/cindex.go`: `onWrite` creates the `chkInfo` from the first write
+notification of a chunk, `chkInfo.update` folds every further one in) and the drop step of `deleteJournal`
+
+`MaxTs` of this hull is what the time loop of `truncate` compares with `OldestTs`. `indep` is the shape of
+`update()` as the extractor reads it: two independent `if`s (`true`) or `if … else if …` (`false`). -/
+namespace Logrange.Truncate
+
+structure Hull where
+  minTs : Int
+  maxTs : Int
+deriving DecidableEq, Repr, Inhabited
+
+/-- `chkInfo.update(rInfo)` -/
+def hullUpdate (indep : Bool) (h r : Hull) : Hull :=
+  if indep = true then
+    let h1 : Hull := if h.minTs > r.minTs then { h with minTs := r.minTs } else h
+    if h1.maxTs < r.maxTs then { h1 with maxTs := r.maxTs } else h1
+  else
+    if h.minTs > r.minTs then { h with minTs := r.minTs }
+    else if h.maxTs < r.maxTs then { h with maxTs := r.maxTs } else h
+
+/-- the hull of a chunk after the write notifications `rs`, in order -/
+def chunkHull (indep : Bool) : List Hull → Option Hull
+  | [] => none
+  | r :: rs => some (rs.foldl (hullUpdate indep) r)
+
+/-- `deleteJournal` at the moment it holds the exclusive lock: `users` = holders besides the TRUNCATE, `now` = the
+partition's chunks at that moment (what the caller saw earlier may be stale: a writer can have appended and
+released in between). `recheck` = the `if sz := j.Size(); sz > 0 { unlock; return false }` after `LockExclusively`
+is there (regenerated from the source). -/
+def deleteJournalAt (recheck : Bool) (users : Nat) (now : List Chunk) : Bool :=
+  users == 0 && (!recheck || psize now == 0)
+
+end Logrange.Truncate
